@@ -61,3 +61,30 @@ package logger
 //@   safety
 //@   opt auto-counters 1
 //@   prop C16
+
+// C16 (no panic): diagnostics for JSON embedded in a JavaScript string (Yarn PnP manifests: hydrateRuntimeState(JSON.parse(
+// '...'))) are mapped back through a table built by GenerateStringInJSTable. Both lookups end with `table[index]`, so
+// the table must never be empty, also for the empty inner string `JSON.parse("")` (whose only diagnostic, "Unexpected end
+// of file", still has to be located).
+//@ func GenerateStringInJSTable
+//@   arith int
+//@   nooverflow off
+//@   prop C16
+//@   opt scenario pnp_empty_json_parse
+//@   ensures table-is-never-empty: len(table) >= 1
+
+//@ func RemapStringInJSLoc
+//@   arith int
+//@   nooverflow off
+//@   safety
+//@   prop C16
+//@   requires len(table) >= 1
+//@   loop 0 invariant 0 <= index && index < len(table) && 0 <= count && index + count <= len(table)
+
+//@ func NewStringInJSLog$1
+//@   arith int
+//@   nooverflow off
+//@   safety
+//@   prop C16
+//@   requires len(table) >= 1
+//@   loop 0 invariant 0 <= index && index < len(table) && 0 <= count && index + count <= len(table)
